@@ -25,7 +25,8 @@ Inductive proto := H1 | H2.
 Inductive dres := DOk (alpn : bool) | DErrConnect | DErrHandshake.
 Inductive dstage := DNew | DInFlight | DResolved (r : dres) | DGone.
 Inductive poller := ByReq | ByTask (tid : nat).
-Record dial := mkDial { d_stage : dstage; d_proto : proto; d_key : key; d_polled : option poller }.
+(* [d_uri] is a ghost: the scheme/authority of the request's URI (None: no scheme), kept for the proofs *)
+Record dial := mkDial { d_stage : dstage; d_proto : proto; d_key : key; d_uri : option key; d_polled : option poller }.
 
 Inductive err := EConn | EHs | EUnavail | EUri.
 Inductive rres := ROk | RErr (e : err).
@@ -138,8 +139,8 @@ Definition k_set_rxpolled v (k : checkout) := mkCk (k_token k) (k_waiter k) (k_i
 
 Definition k_set_txdropped v (k : checkout) := mkCk (k_token k) (k_waiter k) (k_inner k) (k_conn k) (k_owner k) (k_slot k) v (k_rxpolled k).
 
-Definition d_set_stage v (d : dial) := mkDial v (d_proto d) (d_key d) (d_polled d).
-Definition d_set_polled v (d : dial) := mkDial (d_stage d) (d_proto d) (d_key d) v.
+Definition d_set_stage v (d : dial) := mkDial v (d_proto d) (d_key d) (d_uri d) (d_polled d).
+Definition d_set_polled v (d : dial) := mkDial (d_stage d) (d_proto d) (d_key d) (d_uri d) v.
 
 (* ---------------------------------------------------------------- connections *)
 Definition share_of s c := match get_conn s c with Some cn => c_share cn | None => false end.
@@ -416,25 +417,25 @@ Definition do_issue (cfg : config) (u : nat) (p : proto) s :=
   let s := set_woken (woken s ++ [false]) s in
   let add r d s := set_dials (dials s ++ [d]) (set_reqs (reqs s ++ [r]) s) in
   match nth u (g_uris cfg) None with
-  | None => add RError (mkDial DGone p ("", "") None) s
+  | None => add RError (mkDial DGone p ("", "") None None) s
   | Some k =>
       if negb (g_pool cfg) then
-        add (RCheckout (new_ck 0 WNoPool IConnecting None false true)) (mkDial DNew p k None) s
+        add (RCheckout (new_ck 0 WNoPool IConnecting None false true)) (mkDial DNew p k (Some k) None) s
       else
         let '(t, s) := key_insert k s in
         let '(found, s) := pool_pop (g_timeout cfg) t s in
         match found with
-        | Some c => add (RCheckout (new_ck t WIdle IConnected (Some c) false true)) (mkDial DGone p k None) s
+        | Some c => add (RCheckout (new_ck t WIdle IConnected (Some c) false true)) (mkDial DGone p k (Some k) None) s
         | None =>
             let pending := p_marker (get_tok s t) in
             let s := upd_tok t (fun q => set_waiting (p_waiting q ++ [(rid, pending)]) q) s in
             if pending then
-              add (RCheckout (new_ck t WConnecting IWaiting None false false)) (mkDial DGone p k None) s
+              add (RCheckout (new_ck t WConnecting IWaiting None false false)) (mkDial DGone p k (Some k) None) s
             else
               let own := match p with H2 => true | H1 => false end in
               let s := if own then upd_tok t (set_marker true) s else s in
               add (RCheckout (new_ck t WIdle (if g_cont cfg then IDelayDrop else IConnecting) None own false))
-                  (mkDial DNew p k None) s
+                  (mkDial DNew p k (Some k) None) s
         end
   end.
 
